@@ -12,7 +12,11 @@
 //!        changed, anything else literal (`x+@0` = "x" followed by key 0's z32 text);
 //!        `-` alone as record list = no records.
 //!        flags: t tamper signature, m malformed DNS payload, x one trailing byte, e empty payload,
-//!               l pad payload to exactly 1000 bytes, L to 1001, s<n> truncate the body to n (<72) bytes
+//!               l pad payload to exactly 1000 bytes, L to 1001, s<n> truncate the body to n (<72) bytes,
+//!               T tamper the FIRST signature byte, c<j> forged body: the 64 signature bytes are COPIED from
+//!               the body of the j-th `P` operation of the case (0-based, must be an earlier one; e.g. the
+//!               packet currently stored for the key, an older packet of the key, another key's packet) and
+//!               put in front of this operation's own timestamp and payload
 //!   `G<k>`              HTTP GET /pkarr/<z32(k)>
 //!   `Q<name>/<type>`    DoH POST query
 use std::{net::SocketAddr, sync::OnceLock};
@@ -246,6 +250,8 @@ fn parse(raw: &str) -> (u64, u64, Vec<String>, Vec<Op>) {
 /// A PUT request body and its description for the model.
 struct Built {
     body: Vec<u8>,
+    /// the 64 signature bytes of the body before any truncation (donor material for `c<j>`)
+    sig: Vec<u8>,
     /// None = body shorter than 72 bytes
     full: Option<(Vec<u8>, u64, Vec<u8>)>, // (sig, ts, payload)
     /// (signer key, ts, payload) the signature really verifies for
@@ -254,7 +260,11 @@ struct Built {
     recs: Vec<Rec>,
 }
 
-fn build(seed: u64, signer: u64, ts: u64, recs: &[Rec], flags: &str) -> Built {
+fn flag_num(flags: &str, f: char) -> Option<usize> {
+    flags.find(f).map(|i| flags[i + 1..].chars().take_while(|c| c.is_ascii_digit()).collect::<String>().parse().unwrap())
+}
+
+fn build(seed: u64, signer: u64, ts: u64, recs: &[Rec], flags: &str, earlier: &[&Built]) -> Built {
     let sk = secret(seed, signer);
     let mut payload = if flags.contains('e') {
         vec![]
@@ -274,21 +284,33 @@ fn build(seed: u64, signer: u64, ts: u64, recs: &[Rec], flags: &str) -> Built {
     }
     let mut sig = sk.sign(&signable(ts, &payload)).to_bytes().to_vec();
     let mut valid_for = Some((signer, ts, payload.clone()));
+    if let Some(j) = flag_num(flags, 'c') {
+        // forged body: somebody else's (public) signature in front of our own timestamp and payload.
+        // What that signature verifies for is whatever the donor's did; whether that happens to
+        // be this very (key, ts, payload) -- an honest republish -- is decided by the table lookup.
+        let donor = earlier.get(j).unwrap_or_else(|| panic!("c{j}: no earlier P operation {j}"));
+        sig = donor.sig.clone();
+        valid_for = donor.valid_for.clone();
+    }
     if flags.contains('t') {
         sig[63] ^= 1;
+        valid_for = None;
+    }
+    if flags.contains('T') {
+        sig[0] ^= 0x80;
         valid_for = None;
     }
     let mut body = sig.clone();
     body.extend_from_slice(&ts.to_be_bytes());
     body.extend_from_slice(&payload);
-    let mut full = Some((sig, ts, payload.clone()));
-    if let Some(i) = flags.find('s') {
-        let n: usize = flags[i + 1..].chars().take_while(|c| c.is_ascii_digit()).collect::<String>().parse().unwrap();
+    let mut full = Some((sig.clone(), ts, payload.clone()));
+    let sig_full = sig.clone();
+    if let Some(n) = flag_num(flags, 's') {
         body.truncate(n.min(71));
         full = None;
     }
     let simple_ok = Packet::parse(&payload).is_ok();
-    Built { body, full, valid_for, simple_ok, recs: recs.to_vec() }
+    Built { body, sig: sig_full, full, valid_for, simple_ok, recs: recs.to_vec() }
 }
 
 // ---- minimal DNS response reader (answers with raw rdata; names inside rdata decompressed) ----
@@ -431,13 +453,32 @@ async fn call(router: &axum::Router, req: http::Request<Body>) -> (u16, Vec<u8>)
 fn run(raw: &str) -> (String, String) {
     let (cfg, seed, z, ops) = parse(raw);
     let orig = origins(cfg);
-    let built: Vec<Option<Built>> = ops
-        .iter()
-        .map(|op| match op {
-            Op::P { signer, ts, recs, flags, .. } => Some(build(seed, *signer, *ts, recs, flags)),
+    let mut built: Vec<Option<Built>> = Vec::new();
+    for op in &ops {
+        let b = match op {
+            Op::P { signer, ts, recs, flags, .. } => {
+                let earlier: Vec<&Built> = built.iter().flatten().collect();
+                Some(build(seed, *signer, *ts, recs, flags, &earlier))
+            }
             _ => None,
-        })
-        .collect();
+        };
+        built.push(b);
+    }
+    // The `verify` oracle handed to the model is the table `sig -> (key, ts, payload)` derived from how
+    // the bodies were constructed.  Check it against the REAL ed25519 verification of every full body
+    // under every key of the case (this is what the server must compute for the path key): a table
+    // that answers differently is a harness bug and must not go unnoticed.
+    for b in built.iter().flatten() {
+        if let Some((sig, ts, payload)) = &b.full {
+            let sig64: [u8; 64] = sig.as_slice().try_into().unwrap();
+            let signature = iroh_base::Signature::from_bytes(&sig64);
+            for k in 0..NKEYS {
+                let real = secret(seed, k).public().verify(&signable(*ts, payload), &signature).is_ok();
+                let table = b.valid_for.as_ref().is_some_and(|(vk, vts, vp)| *vk == k && vts == ts && vp == payload);
+                assert_eq!(real, table, "verify oracle table disagrees with ed25519 (key {k}, ts {ts}) in {raw}");
+            }
+        }
+    }
     // payload ranks (order-isomorphic renaming of the payload bytes) and signature ids
     let mut payloads: Vec<Vec<u8>> = built.iter().flatten().filter_map(|b| b.full.as_ref().map(|f| f.2.clone())).collect();
     payloads.sort();
@@ -767,14 +808,116 @@ fn gen_query_for(rng: &mut Rng, cfg: u64, published: &[(String, u16, u64)]) -> S
     format!("Q{full}/{ty}")
 }
 
-fn generate(rng: &mut Rng, _i: u64, _n: u64) -> String {
+/// Number of systematic forged-publish scenarios (see `forgery_scenario`).
+const N_FORGERY: u64 = 3 * 4 * 3;
+
+/// "A publish whose signature does not verify for the key in the request is rejected and changes
+/// nothing" -- whatever the server already knows about the bytes in the body.  Key K has an older
+/// packet (ts 2) and a stored one (ts 4), key K' a stored one (ts 4); optionally K's zone is in
+/// the cache.  Then a body is PUT under K whose 64 signature bytes are copied from
+///   donor = 0: K's STORED packet, 1: K's OLDER packet, 2: K''s packet,
+/// followed by a timestamp older than / equal to the donor's old one (2), between (3), equal to the
+/// stored one (4), newer (5), and the payload of the donor / of K's stored packet / new records in
+/// K's zone.  Exactly the combinations (donor's ts, donor's payload) are honest replays (accepted,
+/// and they update only if newer); every other one must get "Invalid signature" and leave GET and
+/// all answers as they were.
+fn forgery_scenario(rng: &mut Rng, j: u64) -> String {
+    let donor = j % 3;
+    let ts = 2 + (j / 3) % 4;
+    let what = (j / 12) % 3;
+    let cfg = *rng.pick(&[0u64, 0, 1, 2, 3]);
+    let k = rng.below(NKEYS);
+    let k2 = (k + 1 + rng.below(NKEYS - 1)) % NKEYS;
+    let d = |rng: &mut Rng| rng.pick(DATA).to_string();
+    let old = format!("_iroh.@{k}/16/30/{}", d(rng));
+    let cur = format!("_iroh.@{k}/16/30/{}0,b.@{k}/1/30/{}", d(rng), d(rng));
+    let other = format!("_iroh.@{k2}/16/30/{}1", d(rng));
+    let evil = format!("_iroh.@{k}/16/30/evil,{}.@{k}/16/60/evil2,b.@{k}/1/30/evil3", rng.pick(LABELS));
+    let recs = match (what, donor) {
+        (0, 0) => cur.clone(),
+        (0, 1) => old.clone(),
+        (0, _) => other.clone(),
+        (1, _) => cur.clone(),
+        _ => evil.clone(),
+    };
+    let o = origins(cfg);
+    let origin = rng.pick(&o).trim_end_matches('.').to_string();
+    let q = |n: &str, ty: u16| if origin.is_empty() { format!("Q{n}/{ty}") } else { format!("Q{n}.{origin}/{ty}") };
+    let mut out = vec![format!("o{cfg}"), format!("s{}", rng.below(1000))];
+    out.push(format!("P{k}:{k}:2:{old}"));
+    out.push(format!("P{k}:{k}:4:{cur}"));
+    out.push(format!("P{k2}:{k2}:4:{other}"));
+    if rng.chance(1, 2) {
+        out.push(q(&format!("_iroh.@{k}"), 16)); // K's zone is cached when the forged body arrives
+    }
+    out.push(format!("P{k}:{k}:{ts}:{recs}:c{donor}"));
+    out.push(format!("G{k}"));
+    for r in recs.split(',').chain(cur.split(',')) {
+        let p: Vec<&str> = r.split('/').collect();
+        let n = if p[0].ends_with(&format!("@{k2}")) { sloppy_name(p[0], k) } else { p[0].to_string() };
+        out.push(q(&n, p[1].parse().unwrap()));
+    }
+    out.push(q(&format!("_iroh.@{k2}"), 16));
+    out.push(format!("G{k2}"));
+    out.join(" ")
+}
+
+/// A forged PUT built from an earlier PUT of the same case: that body's signature in front of
+/// a newer / equal / older timestamp and the same / extended / new records, mostly under the
+/// donor's path key.
+fn gen_forged(rng: &mut Rng, puts: &[(u64, u64, u64, String, String)]) -> (u64, u64, u64, String, String) {
+    let j = rng.below(puts.len() as u64) as usize;
+    let (dpath, _dsigner, dts, drecs, _dflags) = puts[j].clone();
+    let path = if dpath >= NKEYS { rng.below(NKEYS) } else if rng.chance(1, 5) { rng.below(NKEYS) } else { dpath };
+    let ts = match rng.below(6) {
+        0 => dts,
+        1 => dts.saturating_sub(1),
+        2 => rng.range(1, 5),
+        _ => dts + 1,
+    };
+    let recs = match rng.below(4) {
+        0 => drecs,
+        1 if drecs != "-" => format!("{drecs},{}", gen_rec(rng, path)),
+        _ => {
+            let n = rng.range(1, 3);
+            (0..n).map(|_| if rng.chance(3, 4) { format!("{}.@{path}/16/30/{}", rng.pick(LABELS), rng.pick(DATA)) } else { gen_rec(rng, path) }).collect::<Vec<_>>().join(",")
+        }
+    };
+    let mut flags = format!("c{j}");
+    if rng.chance(1, 12) {
+        flags.push(*rng.pick(&['t', 'T', 'x']));
+    }
+    (path, path, ts, recs, flags)
+}
+
+fn generate(rng: &mut Rng, i: u64, _n: u64) -> String {
+    if i < N_FORGERY {
+        return forgery_scenario(rng, i);
+    }
+    if rng.chance(1, 12) {
+        let j = rng.below(N_FORGERY);
+        return forgery_scenario(rng, j);
+    }
     let cfg = *rng.pick(&[0u64, 0, 0, 1, 2, 3]);
     let mut out = vec![format!("o{cfg}"), format!("s{}", rng.below(1000))];
     let mut published: Vec<(String, u16, u64)> = Vec::new();
+    // every PUT so far: (path, signer, ts, records, flags) -- donors for forged bodies
+    let mut puts: Vec<(u64, u64, u64, String, String)> = Vec::new();
     let nops = rng.range(2, 7);
     for _ in 0..nops {
         match rng.below(10) {
             0 => out.push(format!("G{}", if rng.chance(1, 10) { 9 } else { rng.below(NKEYS) })),
+            1..=4 if !puts.is_empty() && rng.chance(1, 5) => {
+                let (path, signer, ts, recs, flags) = gen_forged(rng, &puts);
+                if recs != "-" {
+                    for r in recs.split(',') {
+                        let p: Vec<&str> = r.split('/').collect();
+                        published.push((p[0].to_string(), norm_type(p[1].parse().unwrap()), signer));
+                    }
+                }
+                out.push(format!("P{path}:{signer}:{ts}:{recs}:{flags}"));
+                puts.push((path, signer, ts, recs, flags));
+            }
             1..=4 => {
                 let path = if rng.chance(1, 25) { 9 } else { rng.below(NKEYS) };
                 let signer = if rng.chance(1, 5) { rng.below(NKEYS) } else { path.min(NKEYS - 1) };
@@ -793,9 +936,11 @@ fn generate(rng: &mut Rng, _i: u64, _n: u64) -> String {
                     4 if rng.chance(1, 3) => "l",
                     5 if rng.chance(1, 3) => "L",
                     6 => *rng.pick(&["s0", "s71", "s40"]),
+                    7 if rng.chance(1, 2) => "T",
                     _ => "",
                 };
                 let recs = if recs.is_empty() { "-".to_string() } else { recs.join(",") };
+                puts.push((path, signer, ts, recs.clone(), flags.to_string()));
                 let mut t = format!("P{path}:{signer}:{ts}:{recs}");
                 if !flags.is_empty() {
                     t.push(':');
